@@ -649,3 +649,64 @@ def seed_structure_search(rng, n):
             fails.append(dict(kind='seed-structure', config=_ser(cfg), steps=steps, why=bad))
             break
     return fails, st
+
+
+# ---------------------------------------------------------------------------------------------------------------
+# C20: every element of a Brownian sample is driven by its own noise element
+# ---------------------------------------------------------------------------------------------------------------
+
+def element_noise_search(rng, n_cfg, n_hist):
+    """Perturb ONE element of every noise draw (`_randn`) of a real BrownianInterval of shape (B, m); W and U may change in
+    that element only, A (Levy area) in that batch row only (and only in entries touching that channel)."""
+    import torchsde._brownian.brownian_interval as bi
+    fails, st = [], dict(evals=0, configs=0, queries=0)
+    for _ in range(n_cfg):
+        cfg = random_config(rng)
+        Bn, m = rng.choice([2, 3]), rng.choice([2, 3])
+        cfg['size'] = (Bn, m)
+        cfg['levy'] = rng.choice(['none', 'space-time', 'davie', 'foster'])
+        hist = random_history(rng, cfg, n_hist)
+        eb, ej = rng.randrange(Bn), rng.randrange(m)
+        saved = bi._randn
+
+        def run(perturb):
+            def fake(size, dtype, device, seed):
+                v = saved(size, dtype, device, seed)
+                if perturb:
+                    v = v.clone()
+                    if len(size) == 2:
+                        v[eb, ej] += 0.5
+                    else:  # (B, m, m) Levy-area noise: perturb the entries touching channel ej in row eb
+                        v[eb, ej, :] += 0.5
+                        v[eb, :, ej] -= 0.25
+                return v
+            bi._randn = fake
+            try:
+                bm = build(cfg)
+                outs = []
+                for a, b in hist:
+                    outs.append(_query(bm, a, b, cfg))
+                return outs
+            finally:
+                bi._randn = saved
+        st['configs'] += 1
+        try:
+            base, pert = run(False), run(True)
+        except QueryTimeout:
+            continue
+        for qi, (r0, r1) in enumerate(zip(base, pert)):
+            st['queries'] += 1
+            for k, (x0, x1) in enumerate(zip(r0, r1)):
+                if x0 is None:
+                    continue
+                st['evals'] += 1
+                same = (x0 == x1)
+                if x0.dim() == 2:
+                    same[eb, ej] = True
+                else:
+                    same[eb] = True
+                if not bool(same.all()):
+                    fails.append(dict(kind='element-crosstalk', cfg=_ser(cfg), query=hist[qi], which='WUA'[k] if k < 3 else k,
+                                      element=(eb, ej), changed=[list(map(int, i)) for i in (~same).nonzero()[:4]]))
+                    return fails, st
+    return fails, st
